@@ -66,9 +66,13 @@ PRIM_PATS = [("Bool", "Bool"), ("Char", "Char"), ("Byte", "Byte"),
              ("F32", "Float(FloatType::F32)"), ("F64", "Float(FloatType::F64)")]
 
 
-def prim_match_table(path, fn):
+def prim_match_table(path, fn, after=None, fallback=None):
     """a `match prim { PrimitiveType::X | PrimitiveType::Y => "lit", ... }` function -> {prim: literal}"""
     body = fn_body(open(os.path.join(REPO, path)).read(), fn)
+    if after:
+        if after not in body:
+            raise MachineryError(f"tablegen: {fn}: marker {after!r} not found")
+        body = body.split(after, 1)[1]
     arms = re.findall(r"((?:PrimitiveType::[\w:()]+\s*\|?\s*)+)=>\s*\"([^\"]*)\"", body)
     out = {}
     for pats, lit in arms:
@@ -78,6 +82,11 @@ def prim_match_table(path, fn):
                     if name in out:
                         raise MachineryError(f"tablegen: {fn}: {name} matched twice")
                     out[name] = lit
+    if fallback:
+        if not re.search(r"prim\s*=>\s*self\." + fallback[0] + r"\(prim\)", body):
+            raise MachineryError(f"tablegen: {fn}: expected a fallback arm to {fallback[0]}")
+        for n, v in fallback[1].items():
+            out.setdefault(n, v)
     missing = [n for n, _ in PRIM_PATS if n not in out]
     if missing:
         raise MachineryError(f"tablegen: {fn} in {path}: no string arm for {missing}")
@@ -123,6 +132,14 @@ def main():
     lines += [f'  | P{n} => "{cder[n]}"' for n, _ in PRIM_PATS] + ["  end.", "",
               "(* tool/templates/c/capi.h.jinja MAKE_SLICES_AND_OPTIONS(name, c_ty) rows *)",
               "Definition capi_rows : list (string * string) := [" + "; ".join(f'("{a}", "{b}")' for a, b in capi_rows()) + "]."]
+    dart = prim_match_table("tool/src/dart/formatter.rs", "fmt_primitive_as_ffi", after="} else {")
+    ktffi = prim_match_table("tool/src/kotlin/formatter.rs", "fmt_primitive_as_ffi")
+    ktnat = prim_match_table("tool/src/kotlin/formatter.rs", "fmt_primitive_type_native", fallback=("fmt_primitive_as_ffi", ktffi))
+    for title, name, tab in (("tool/src/dart/formatter.rs fmt_primitive_as_ffi (cast = false)", "dart_prim_ffi", dart),
+                             ("tool/src/kotlin/formatter.rs fmt_primitive_as_ffi (JNA parameter / return types)", "kt_prim_ffi", ktffi),
+                             ("tool/src/kotlin/formatter.rs fmt_primitive_type_native (JNA struct fields, results)", "kt_prim_native", ktnat)):
+        lines += ["", f"(* {title} *)", f"Definition {name} (p : prim) : string :=", "  match p with"]
+        lines += [f'  | P{n} => "{tab[n]}"' for n, _ in PRIM_PATS] + ["  end."]
     out = "\n".join(lines) + "\n"
     path = os.path.join(COQ, "theories", "gen", "Tables.v")
     os.makedirs(os.path.dirname(path), exist_ok=True)
